@@ -481,6 +481,7 @@ func Main(args []string) error {
 	per := fs.Int("per", 20, "puts per goroutine and phase (conc)")
 	traffic := fs.Int("traffic", 20, "MB of unrelated traffic per round (recycle)")
 	stride := fs.Int("stride", 7, "crash-point stride (crash)")
+	only := fs.Int("only", -1, "internal: run only this history (crash)")
 	window := fs.Int("window", 500, "bytes at the end of the log cut one by one (torn)")
 	if err := fs.Parse(args); err != nil {
 		return err
@@ -499,7 +500,7 @@ func Main(args []string) error {
 	case "conc":
 		return runConc(w, *seed, *traces, *gor, *per)
 	case "crash":
-		return runCrash(w, *seed, *traces, *ops, *stride)
+		return runCrash(w, *out, *seed, *traces, *ops, *stride, *only)
 	case "gated":
 		return runGated(w, *in, *seed)
 	case "torn":
